@@ -229,9 +229,10 @@ def wfEvents : List Event → Bool
   | .register .. :: es => wfEvents es
   | .glom steps _ :: es => wfSteps steps && wfEvents es
 
-/-- memo coherence: every memoised handler is the one the table gives -/
+/-- memo coherence: every memoised handler is the one the table gives (a memoised
+    `False`: the table gives none) -/
 def Reg.coherent (r : Reg) (ct : ClassTable) : Bool :=
-  r.cache.all (fun p => r.tbl.nearest ct p.1 == some p.2)
+  r.cache.all (fun p => r.tbl.nearest ct p.1 == (if p.2 == .off then none else some p.2))
 
 /-! ### vocabulary of the kernel theorems -/
 
